@@ -385,14 +385,12 @@ Definition view (st : ostate) : option attrs :=
   end.
 
 (* setters; None = ValueError *)
+(* shape setter (after commit 55eb95e): each of dims / dimsd that is already set is validated *)
 Definition set_shape (s : nat * nat) (st : ostate) : option ostate :=
-  match o_dims st, o_dimsd st with
-  | Some d, Some dd =>
-      if (prod dd =? fst s) && (prod d =? snd s)
-      then Some {| o_shape := Some s; o_dims := o_dims st; o_dimsd := o_dimsd st; o_ff := o_ff st |}
-      else None
-  | _, _ => Some {| o_shape := Some s; o_dims := o_dims st; o_dimsd := o_dimsd st; o_ff := o_ff st |}
-  end.
+  let baddimsd := match o_dimsd st with Some dd => negb (prod dd =? fst s) | None => false end in
+  let baddims := match o_dims st with Some d => negb (prod d =? snd s) | None => false end in
+  if baddimsd || baddims then None
+  else Some {| o_shape := Some s; o_dims := o_dims st; o_dimsd := o_dimsd st; o_ff := o_ff st |}.
 Definition set_dims (d : list nat) (st : ostate) : option ostate :=
   match o_shape st with
   | None => Some {| o_shape := None; o_dims := Some d; o_dimsd := o_dimsd st; o_ff := o_ff st |}
@@ -456,18 +454,44 @@ Proof.
 Qed.
 Lemma set_ff_inv f st : oinv st -> oinv (set_ff f st).
 Proof. unfold oinv, set_ff. destruct st as [[s|] dm ddm ff]; cbn; auto. Qed.
-(* the shape setter validates only when BOTH dims and dimsd are already set *)
-Lemma set_shape_inv s st st' :
-  (o_dims st = None <-> o_dimsd st = None) -> set_shape s st = Some st' -> oinv st'.
+Lemma set_shape_inv s st st' : set_shape s st = Some st' -> oinv st'.
 Proof.
-  unfold oinv, set_shape. destruct st as [sh [d|] [dd|] ff]; cbn; intros [A B] H.
-  - destruct ((prod dd =? fst s) && (prod d =? snd s)) eqn:E; [|discriminate]. inversion H; subst; cbn.
-    apply andb_true_iff in E as [E1 E2]. apply Nat.eqb_eq in E1, E2.
+  unfold oinv, set_shape. destruct st as [sh [d|] [dd|] ff]; cbn.
+  - destruct (prod dd =? fst s) eqn:E1; destruct (prod d =? snd s) eqn:E2; cbn; try discriminate.
+    intro H; inversion H; subst; cbn. apply Nat.eqb_eq in E1, E2.
     split; intros d0 E0; inversion E0; subst; assumption.
-  - specialize (B eq_refl). discriminate.
-  - specialize (A eq_refl). discriminate.
-  - inversion H; subst; cbn. split; intros; discriminate.
+  - destruct (prod d =? snd s) eqn:E2; cbn; try discriminate.
+    intro H; inversion H; subst; cbn. apply Nat.eqb_eq in E2.
+    split; intros d0 E0; inversion E0; subst; assumption.
+  - destruct (prod dd =? fst s) eqn:E1; cbn; try discriminate.
+    intro H; inversion H; subst; cbn. apply Nat.eqb_eq in E1.
+    split; intros d0 E0; inversion E0; subst; assumption.
+  - intro H; inversion H; subst; cbn. split; intros; discriminate.
 Qed.
+
+(* arbitrary sequences of assignments to shape / dims / dimsd on a bare LinearOperator *)
+Inductive sop := SShape (m n : nat) | SDims (d : list nat) | SDimsd (d : list nat).
+Fixpoint run_sops (l : list sop) (st : ostate) : option ostate :=
+  match l with
+  | [] => Some st
+  | SShape m n :: l' => bind (set_shape (m, n) st) (run_sops l')
+  | SDims d :: l' => bind (set_dims d st) (run_sops l')
+  | SDimsd d :: l' => bind (set_dimsd d st) (run_sops l')
+  end.
+Lemma run_sops_inv l : forall st st', oinv st -> run_sops l st = Some st' -> oinv st'.
+Proof.
+  induction l as [|o l IH]; intros st st' Hi H; cbn in H.
+  - inversion H; subst; assumption.
+  - destruct o as [m n|d|d]; cbn [bind] in H.
+    + destruct (set_shape (m, n) st) as [s1|] eqn:E; [|discriminate]. eapply IH; [|exact H]. eapply set_shape_inv; eauto.
+    + destruct (set_dims d st) as [s1|] eqn:E; [|discriminate]. eapply IH; [|exact H]. eapply set_dims_inv; eauto.
+    + destruct (set_dimsd d st) as [s1|] eqn:E; [|discriminate]. eapply IH; [|exact H]. eapply set_dimsd_inv; eauto.
+Qed.
+(* ANY non-raising sequence of setter calls, in any order, leaves
+   shape = (prod dimsd, prod dims) on the attributes read back *)
+Theorem setters_any_order_wf :
+  forall l st a, run_sops l empty = Some st -> view st = Some a -> wf a.
+Proof. intros l st a H Hv. eapply view_wf; [|exact Hv]. eapply run_sops_inv; [|exact H]. exact I. Qed.
 
 (* __init__ either raises or yields consistent attributes *)
 Theorem init_wf :
@@ -490,12 +514,25 @@ Proof.
   inversion Hi; subst. destruct ff; [apply set_ff_inv|]; assumption.
 Qed.
 
-(* The hole of the cross-validation: assigning dims first and shape second on
-   a bare LinearOperator (dimsd never set) is accepted although inconsistent.
-   No constructor of the library assigns in this order. *)
+(* Legacy (before commit 55eb95e): the shape setter validated only when BOTH
+   dims and dimsd were set, so `Op.dims = (5,); Op.shape = (3, 4)` on a bare
+   LinearOperator was accepted although inconsistent.  Kept as the witness of
+   what the fixed guard excludes. *)
+Module Legacy.
+Definition set_shape_legacy (s : nat * nat) (st : ostate) : option ostate :=
+  match o_dims st, o_dimsd st with
+  | Some d, Some dd =>
+      if (prod dd =? fst s) && (prod d =? snd s)
+      then Some {| o_shape := Some s; o_dims := o_dims st; o_dimsd := o_dimsd st; o_ff := o_ff st |}
+      else None
+  | _, _ => Some {| o_shape := Some s; o_dims := o_dims st; o_dimsd := o_dimsd st; o_ff := o_ff st |}
+  end.
 Example setter_order_hole :
-  exists st a, bind (set_dims [5] empty) (set_shape (3, 4)) = Some st /\ view st = Some a /\ wfb a = false.
+  exists st a, bind (set_dims [5] empty) (set_shape_legacy (3, 4)) = Some st /\ view st = Some a /\ wfb a = false.
 Proof. eexists; eexists; split; [reflexivity|split; reflexivity]. Qed.
+End Legacy.
+Example setter_order_now_rejected : bind (set_dims [5] empty) (set_shape (3, 4)) = None.
+Proof. reflexivity. Qed.
 
 (* ---- constructions (all start from a fresh object whose shape is given) ---- *)
 Definition of_ostate (o : option ostate) : option attrs := bind o view.
